@@ -107,7 +107,7 @@ PROPERTIES = {
         "explanation": "R-SENTINEL on _ravel_factorized; R-PAIRS[groupers]; R-CODEWIDTH: every code array is an intp producer so code arithmetic cannot wrap; R-IDENTITYCODES",
     },
     "C08": {
-        "rules": [M.rule_sentinel_offset, M.rule_copermute, PR.rule_pairs_collapse, PR.rule_pairs_outinds, CD.rule_codewidth, PR.rule_layout, rule_axisrange, PR.rule_pairs_broadcast, PR.rule_pairs_broadcast_nax, rule_axisorder, PR.rule_pairs_transpose, rule_axiskey, rule_partialunknown],
+        "rules": [M.rule_sentinel_offset, M.rule_copermute, PR.rule_pairs_collapse, PR.rule_pairs_outinds, CD.rule_codewidth, PR.rule_layout, rule_axisrange, PR.rule_pairs_broadcast, PR.rule_pairs_broadcast_nax, rule_axisorder, PR.rule_pairs_transpose, rule_axiskey, rule_partialunknown, M.rule_varbatch],
         "thorough": [selftest, seeded_regression],
         "technique": "CFG must-pass-through of a masked sentinel restore; permutation agreement of labels and values",
         "level_text": "Static, all-paths: after per-slice offsetting of codes, every path to return restores the missing-label code under a "
@@ -152,7 +152,7 @@ PROPERTIES = {
         "explanation": "R-BLOCKONLY; R-UNPERMUTE (vector q: rows come back in the order given); R-TOKEN (q / ddof are part of the layer names); R-DISPATCH (quantile / nanquantile are never renamed to a kernel of the other NaN discipline)",
     },
     "C20": {
-        "rules": [M.rule_collide, M.rule_castorder, rule_infresolve, M.rule_varshift, M.rule_accdtype, M.rule_scanacc, M.rule_finite, CD.rule_countwidth, M.rule_varwidth, M.rule_accforward, rule_dispatch, M.rule_nanfinal, rule_numbaminmax],
+        "rules": [M.rule_collide, M.rule_castorder, rule_infresolve, M.rule_varshift, M.rule_accdtype, M.rule_scanacc, M.rule_finite, CD.rule_countwidth, M.rule_varwidth, M.rule_accforward, rule_dispatch, M.rule_nanfinal, rule_numbaminmax, M.rule_varbatch],
         "thorough": [selftest, seeded_regression],
         "technique": "sentinel-collision pattern on NaN substitutes; dtype plumbing of the engine wrappers; widening table",
         "level_text": "Static: no all-NaN detector compares a result with its own NaN substitute unless conjoined with a valid-member "
